@@ -11,7 +11,7 @@ import ast
 from fractions import Fraction
 from typing import Callable, Dict, List, Optional, Tuple
 
-from .model import dotted, norm_text
+from .model import dotted, norm_text, ufunc_as_operator
 
 
 class T:
@@ -267,6 +267,9 @@ class DegreeInterp:
                 return deg(l.k)
             return self._unknown(type(op).__name__, e)
         if isinstance(e, ast.Call):
+            op_ = ufunc_as_operator(self.ext_name(e), e)
+            if op_ is not None:
+                return self.eval(op_, env)
             return self._call(e, env)
         if isinstance(e, (ast.ListComp, ast.GeneratorExp)):
             env2 = dict(env)
